@@ -347,6 +347,65 @@ Proof.
     rewrite R by lia. reflexivity.
 Qed.
 
+(** ** the cleaner's candidates and one pass of its loop body *)
+Lemma cand_range_in : forall d cnt i name, In name (cand_range d cnt i) <->
+  exists k, i <= k < i + cnt /\ nm d k = name /\ retained_user d k = false /\
+            ((2 <=? k) && retained_user d (k - 1)) = false.
+Proof.
+  intros d cnt. induction cnt as [|cnt IH]; intros i name; cbn [cand_range].
+  - split; [intros []|intros (k & Hk & _); lia].
+  - destruct (retained_user d i || (2 <=? i) && retained_user d (i - 1)) eqn:E.
+    + rewrite IH. split; intros (k & Hk & R).
+      * exists k. split; [lia|assumption].
+      * exists k. split; [|assumption]. destruct (Nat.eq_dec k i) as [Ek|]; [|lia].
+        exfalso. subst k. destruct R as (_ & R1 & R2). rewrite R1, R2 in E. discriminate.
+    + apply orb_false_iff in E. destruct E as [E1 E2]. cbn [In]. rewrite IH. split.
+      * intros [Hn|(k & Hk & R)].
+        -- exists i. split; [lia|]. split; [assumption|]. split; assumption.
+        -- exists k. split; [lia|assumption].
+      * intros (k & Hk & R). destruct (Nat.eq_dec k i) as [Ek|].
+        -- subst k. left. apply R.
+        -- right. exists k. split; [lia|assumption].
+Qed.
+
+Lemma candidates_in : forall d c name, In name (candidates d (Some c)) <->
+  3 < nf d /\ exists k, 2 <= k < find_name d c (nf d) /\ nm d k = name /\
+     retained_user d k = false /\ retained_user d (k - 1) = false.
+Proof.
+  intros d c name. unfold candidates.
+  destruct (Nat.leb_spec (nf d) 3) as [H3|H3]; [split; [intros []|intros (H & _); lia]|].
+  destruct (Nat.leb_spec (find_name d c (nf d)) 2) as [Hc|Hc]; [split; [intros []|intros (_ & k & Hk & _); lia]|].
+  rewrite cand_range_in. split.
+  - intros (k & Hk & Hn & R1 & R2). split; [assumption|]. exists k. split; [lia|]. split; [assumption|].
+    split; [assumption|]. destruct (Nat.leb_spec 2 k); [exact R2|lia].
+  - intros (_ & k & Hk & Hn & R1 & R2). exists k. split; [lia|]. split; [assumption|]. split; [assumption|].
+    rewrite R2. apply andb_false_r.
+Qed.
+
+Lemma clean_cases : forall d cp victim fail,
+  let i := find_name d victim (nf d) in
+  (existsb (N.eqb victim) (candidates d cp) = false /\ clean d cp victim fail = (d, ROk)) \/
+  (existsb (N.eqb victim) (candidates d cp) = true /\
+   ((clean d cp victim fail = (d, ROk) /\ (i = 0 \/ i = nf d \/ S i = nf d \/ i = 1)) \/
+    (2 <= i /\ S i < nf d /\
+     clean d cp victim fail = if fail then (mark d i, RErr) else (merged (mark d i) i, ROk)))).
+Proof.
+  intros d cp victim fail. cbn zeta. unfold clean.
+  destruct (existsb (N.eqb victim) (candidates d cp)); [right|left; auto]. split; [reflexivity|]. cbn [negb].
+  destruct fail.
+  - destruct (prep_remove_cases d victim) as [(E & Hi)|[(E & Hi & Hc)|(H2 & Hn & E)]]; rewrite E;
+      set (i := find_name d victim (nf d)) in *.
+    + left. rewrite Hi. cbn. auto.
+    + left. split; [reflexivity|]. tauto.
+    + right. split; [assumption|]. split; [assumption|].
+      destruct (Nat.eqb_spec i 0); [lia|]. reflexivity.
+  - destruct (delete_cases d victim) as [(E & Hi)|[(E & Hi & Hc)|(H2 & Hn & E)]]; rewrite E;
+      set (i := find_name d victim (nf d)) in *.
+    + left. auto.
+    + left. split; [reflexivity|]. tauto.
+    + right. auto.
+Qed.
+
 (** ** Resize *)
 Lemma resize_cases : forall d nb,
   (nb < nblk d /\ resize d nb = (d, RErr)) \/
